@@ -4,13 +4,22 @@ class name of the uncaught exception or None)."""
 import io, os, resource, select, signal, sys, time, traceback
 
 
-def compiles(src, name='out.py'):
-    """None if CPython's compiler accepts the text, else 'ExcClass: message'."""
+def compiles(src, name='out.py', detail=False):
+    """None if CPython's compiler accepts the text, else 'ExcClass: message' (detail: plus the offending line)."""
+    import warnings
     try:
-        compile(src, name, 'exec')
+        with warnings.catch_warnings():
+            warnings.simplefilter('ignore')
+            compile(src, name, 'exec')
         return None
     except (SyntaxError, ValueError, OverflowError, RecursionError, MemoryError) as e:
         msg = e.msg if isinstance(e, SyntaxError) else str(e)
+        if detail:
+            line = ''
+            if isinstance(e, SyntaxError) and e.lineno:
+                ls = src.split('\n')
+                line = ls[e.lineno - 1] if 0 < e.lineno <= len(ls) else ''
+            return f'{type(e).__name__}: {msg}', line, (getattr(e, 'offset', None) or 0)
         return f'{type(e).__name__}: {msg}'
 
 
